@@ -245,6 +245,7 @@ def is_zero_val(v):
 
 
 def r1(chk, repo, models):
+    chk.rule("R6", "no linearisation method (compute_partials, linearize, solve_linear, compute_jacvec_product) stores into an alias of the component's inputs: the framework does not re-transfer inputs between linearisations", min_decided=30)
     chk.rule(
         "R1",
         "an augmented / read-modify-write store to persistent storage (outputs, residuals, partials, self.*) is preceded in the same call by a plain store covering the region (typestate STALE->FRESH per storage cell, option valuations enumerated, first surface-loop iteration peeled)",
@@ -261,6 +262,8 @@ def r1(chk, repo, models):
                 if run.final is None:
                     continue
                 _r1_run(chk, m, mname, run)
+            if mname in LIN_METHODS and not any(i.rule == "R6" and i.key.startswith("%s.%s:" % (c.name, mname)) for i in chk.instances):
+                chk.ok("R6", "%s.%s" % (c.name, mname), c.where, "no store reaches the inputs")
 
 
 def attr_objects(m, run):
@@ -298,8 +301,22 @@ def _r1_run(chk, m, mname, run):
         if role in ACCUM_EXEMPT_ROLES:
             continue
         if role == "in":
-            if e.op != "=" or True:
-                chk.info("R1-in", "%s.%s: in-place %s on %s" % (c.name, mname, e.op, cell_txt(cell)), where(c, e.lineno), "in-place operation on an alias of an input (framework re-transfers inputs before each evaluation)")
+            # is the alias definite?  x = inputs[k][0] is a numpy scalar (a copy) when the input is
+            # one-dimensional, which the declaration does not always tell: then only information
+            definite = True
+            bv = e.d.get("base")
+            chain = bv
+            while chain is not None and isinstance(chain.extra, tuple) and chain.extra and chain.extra[0] == "sub":
+                sl = chain.extra[2]
+                elts = sl.elts if isinstance(sl, ast.Tuple) else [sl]
+                if not any(isinstance(x_, ast.Slice) or (isinstance(x_, ast.Constant) and x_.value is Ellipsis) for x_ in elts) and (chain.extra[1].shape is None):
+                    definite = False
+                chain = chain.extra[1]
+            key_in = "%s.%s: %s on %s" % (c.name, mname, e.op, cell_txt(cell))
+            if mname in LIN_METHODS and definite:
+                chk.violation("R6", key_in, where(c, e.lineno), "%s writes into its own input vector (%s %s through an alias of inputs): inputs are not re-transferred between linearisations, so the next linearisation at the same point starts from modified inputs" % (mname, unparse(e.node)[:70] if hasattr(e, "node") else "", e.op))
+            else:
+                chk.info("R1-in", key_in, where(c, e.lineno), "in-place operation on an alias of an input in an evaluation method (the framework re-transfers connected inputs before each evaluation)%s" % ("" if definite else "; alias not definite (integer index on an input of undeclared rank)"))
             continue
         if role == "cfg":
             continue
@@ -507,6 +524,64 @@ def run(chk, repo, tier):
     r3(chk, repo)
     r4(chk, repo)
     r5(chk, repo, models)
+    r7(chk, repo, models)
+
+
+# --------------------------------------------------------------------------- R7
+def r7(chk, repo, models):
+    """Every output of an explicit component is completely written by compute()."""
+    chk.rule("R7", "compute() writes every declared output completely (plain stores whose regions cover the whole array, under every option valuation): an entry that compute never assigns keeps its initial value or the value a solver / user / previous run left there", min_decided=100)
+    for m in models:
+        c = m.cls
+        if c.name in POSTPROCESSING or c.name in NEVER_INSTANTIATED or c.kind != "explicit":
+            continue
+        for run in m.runs.get("compute", []):
+            if run.final is None:
+                continue
+            svs = m.setup_for(run.sigma)
+            if not svs:
+                continue
+            outs = set()
+            for sv in svs:
+                outs |= set(sv.outputs)
+            stores = {}
+            for e in run.events:
+                if e.kind == "store" and e.d.get("cell") and e.d["cell"][0] == "out":
+                    stores.setdefault(e.d["cell"][1], []).append(e)
+            for o in sorted(outs):
+                on = o
+                evs = stores.get(on) or stores.get(on.replace("[0]", "[i]")) or [e for k_, lst in stores.items() for e in lst if norm_name(k_) == norm_name(on)]
+                key = "%s.%s %s" % (c.name, norm_name(on), sig_txt(run.sigma))
+                if not evs:
+                    # not stored in this valuation at all: is it stored in some valuation?  (loop templates may differ)
+                    chk.info("R7", key, c.where, "declared output never stored by compute under this valuation: it keeps its declared value (a constant, not a history dependence)")
+                    continue
+                plain = []
+                for e in evs:
+                    # a store through a mask computed from the data (x[abs(x) < c] = 0) guarantees no entry
+                    svs_ = e.d.get("sub_vals") or ()
+                    if svs_ and any(v_.kind in ("bool", "arr") and any(str(d_).startswith(("in:", "out:")) for d_ in v_.dep) and any(op_ in (e.d.get("subs") or ("",))[0] for op_ in ("<", ">", "==", "!=")) for v_ in svs_):
+                        continue
+                    if e.d.get("op") == "=" or (e.d.get("op") in KILL_MULT and is_zero_val(e.d.get("val"))):
+                        region = e.d.get("region") if e.d.get("view") == "whole" else ("whole" if (e.d.get("region") == "whole" and e.d.get("view") in ("whole", "reshape")) else None)
+                        if e.d.get("view") not in ("whole", "reshape") and region is None:
+                            region = None
+                        plain.append((e, region))
+                if not plain:
+                    chk.violation("R7", key, where(c, evs[0].lineno), "compute only accumulates into outputs[%r] (%s) and never assigns it" % (on, evs[0].d.get("op")))
+                    continue
+                shape = m.shape_of(("out", evs[0].d["cell"][1]), run.sigma)
+                if any(r_ is None for _, r_ in plain):
+                    # a store through a derived view: region not expressed in the coordinates of the output
+                    res = "unknown" if not any(r_ == "whole" for _, r_ in plain) else "covered"
+                else:
+                    res = covered_under("whole", plain, shape, frozenset(), 0)
+                if res == "covered":
+                    chk.ok("R7", key, c.where, "fully written")
+                elif res == "uncovered":
+                    chk.violation("R7", key, where(c, plain[0][0].lineno), "the plain stores to outputs[%r] (%s) provably leave part of the array unwritten: those entries keep whatever was there before (initial value, a solver's guess, the previous evaluation)" % (on, sorted({",".join(e.d.get("subs") or ()) for e, _ in plain})))
+                else:
+                    chk.undecided("R7", key, c.where, "coverage of the whole array by %s not decided" % sorted({",".join(e.d.get("subs") or ()) for e, _ in plain})[:4])
 
 
 # --------------------------------------------------------------------------- R5
